@@ -136,12 +136,14 @@ def apply_tiff_predictor(
     if bitspercomponent != 8:
         error_msg = f"Unsupported `bitspercomponent': {bitspercomponent}"
         raise PDFValueError(error_msg)
+    if colors < 1 or columns < 1:
+        raise PDFValueError(f"Invalid predictor geometry: {colors=}, {columns=}")
     bpp = colors * (bitspercomponent // 8)
     nbytes = columns * bpp
     buf: List[int] = []
     for scanline_i in range(0, len(data), nbytes):
         raw: List[int] = []
-        for i in range(nbytes):
+        for i in range(min(nbytes, len(data) - scanline_i)):
             new_value = data[scanline_i + i]
             if i >= bpp:
                 new_value += raw[i - bpp]
@@ -166,6 +168,8 @@ def apply_png_predictor(
     if bitspercomponent not in [8, 1]:
         msg = "Unsupported `bitspercomponent': %d" % bitspercomponent
         raise PDFValueError(msg)
+    if colors < 1 or columns < 1:
+        raise PDFValueError(f"Invalid predictor geometry: {colors=}, {columns=}")
 
     # number of bytes per scanline, rounded up to a whole byte
     nbytes = (colors * columns * bitspercomponent + 7) // 8
